@@ -5,6 +5,8 @@ CONSTANTS
   CallMax = 32
   Limit = 120
   MaxRun = 1000000
+  NPoints = 7
+  NCvt = 0
 INVARIANTS TypeOK StepBound Dump
 PROPERTIES Halts
 CHECK_DEADLOCK FALSE
